@@ -52,6 +52,8 @@ type LogWrap struct {
 	consuming bool
 	handed    []uint64 // every offset handed to the callback, in order
 	getErr    string
+	recent    map[uint64]string // payload the callback was handed, for recent offsets
+	Mismatch  string            // first Get(o) that disagreed with what Consume handed for o
 }
 
 func (l *LogWrap) Close() error { return l.real.Close() }
@@ -79,11 +81,16 @@ func (l *LogWrap) Append(p *packet.Publish) error {
 
 func (l *LogWrap) Get(offset uint64) (*packet.Publish, error) {
 	p, err := l.real.Get(offset)
+	l.mu.Lock()
 	if err != nil {
-		l.mu.Lock()
 		l.getErr = fmt.Sprintf("Get(%d): %v", offset, err)
-		l.mu.Unlock()
+		if l.Mismatch == "" {
+			l.Mismatch = l.getErr
+		}
+	} else if want, ok := l.recent[offset]; ok && l.Mismatch == "" && (want != string(p.Topic)+"\x00"+string(p.Payload)) {
+		l.Mismatch = fmt.Sprintf("Get(%d) returned %q=%.40q but the consumer was handed %.60q for that offset", offset, p.Topic, p.Payload, want)
 	}
+	l.mu.Unlock()
 	return p, err
 }
 
@@ -94,6 +101,11 @@ func (l *LogWrap) Consume(ctx context.Context, name string, f func(uint64, *pack
 	return l.real.Consume(ctx, name, func(off uint64, p *packet.Publish) error {
 		l.mu.Lock()
 		l.handed = append(l.handed, off)
+		if l.recent == nil {
+			l.recent = map[uint64]string{}
+		}
+		l.recent[off] = string(p.Topic) + "\x00" + string(p.Payload)
+		delete(l.recent, off-200)
 		l.mu.Unlock()
 		err := f(off, p)
 		l.mu.Lock()
@@ -109,6 +121,9 @@ func (l *LogWrap) Consume(ctx context.Context, name string, f func(uint64, *pack
 func (l *LogWrap) Stream(ctx context.Context, consumer stream.Consumer, f func(*packet.Publish) error) error {
 	return l.real.Stream(ctx, consumer, f)
 }
+
+// ReadBackMismatch reports the first disagreement between Get and Consume ("" = none).
+func (l *LogWrap) ReadBackMismatch() string { l.mu.Lock(); defer l.mu.Unlock(); return l.Mismatch }
 
 // FailNext makes the next k appends fail without touching the log.
 func (l *LogWrap) FailNext(k int) { l.mu.Lock(); l.failNext = k; l.mu.Unlock() }
